@@ -265,7 +265,7 @@ def index_pos(seq, i):
 
 BUILTIN_NAMES = ['len', 'int', 'str', 'list', 'dict', 'keys', 'values', 'items', 'get', 'sum', 'min', 'max', 'abs', 'round', 'floor', 'ceil',
                  'push', 'pop', 'insert', 'remove', 'index_of', 'map', 'filter', 'reduce', 'sorted', 'reversed', 'enumerate', 'join',
-                 'split', 'lower', 'upper', 'strip', 'startswith', 'endswith', 'replace',
+                 'split', 'lower', 'upper', 'strip', 'startswith', 'endswith', 'replace', 'pretty', 'match', 'match_groups', 'match_all',
                  '__getitem__', '__setitem__', '__delitem__', '__setitem_with_op__']
 
 
@@ -615,6 +615,53 @@ class Machine:
             return a[0].startswith(a[1]) if name == 'startswith' else a[0].endswith(a[1])
         if name == 'replace' and n == 3 and all(isinstance(x, str) for x in a):
             return a[0].replace(a[1], a[2])
+        if name == 'pretty' and n in (1, 2):
+            v = a[0]
+            sep = a[1] if n == 2 else None
+            if sep is not None and not isinstance(sep, str):
+                raise Undefined('pretty separator')
+            if isinstance(v, dict):
+                return ('\n' if sep is None else sep).join(f'{k}: {to_text(x)}' for k, x in v.items())
+            if isinstance(v, list):
+                return (', ' if sep is None else sep).join(to_text(x) for x in v)
+            if isinstance(v, Num):
+                t = to_text(v)
+                if not t.lstrip('-').isdigit():
+                    raise Undefined('pretty of a non-integer number')
+                body = t.lstrip('-')
+                if len(body) < 5:
+                    return t
+                chunks = []
+                while body:
+                    chunks.insert(0, body[-3:])
+                    body = body[:-3]
+                return ('-' if t.startswith('-') else '') + (' ' if sep is None else sep).join(chunks)
+            return to_text(v)
+        if name in ('match', 'match_groups', 'match_all') and n in (2, 3) and isinstance(a[0], str) and isinstance(a[1], str):
+            import re
+            if not set(a[1]) <= set('abehlLxy|()[]-+*?^$.0123456789 z'):
+                raise Undefined('pattern outside the modelled alphabet')
+            fl = 0
+            if n == 3:
+                if a[2] is None or a[2] == '':
+                    fl = 0
+                elif isinstance(a[2], str) and set(a[2].lower()) <= set('ims'):
+                    for ch in a[2].lower():
+                        fl |= {'i': re.I, 'm': re.M, 's': re.S}[ch]
+                else:
+                    raise Undefined('flags')
+            try:
+                if name == 'match_all':
+                    r = re.findall(a[1], a[0], fl)
+                    return [tuple(x) if isinstance(x, tuple) else x for x in r]
+                m = re.search(a[1], a[0], fl)
+            except re.error:
+                raise Undefined('bad pattern')
+            if m is None:
+                return None
+            if name == 'match':
+                return m.group(0)
+            return [m.group(0)] + list(m.groups())
         if name == '__getitem__' and n == 2:
             return self.getitem(a[0], a[1])
         if name == '__setitem__' and n == 3:
